@@ -61,6 +61,20 @@ func ruleEmitEveryElement(names []string, min int) func(p *Prog, l *Ledger, tier
 				for _, e := range emits {
 					emitBlock[e] = true
 				}
+				// an inner loop that appends stands for the sub-elements of the current element: reaching
+				// it counts, also when it then makes no trip (an element without sub-elements has nothing
+				// to contribute there; the inner loop is judged on its own)
+				for _, inner := range loopsOf(fn) {
+					if inner.header == li.header || !li.blocks[inner.header] {
+						continue
+					}
+					for b := range inner.blocks {
+						if emitBlock[b] {
+							emitBlock[inner.header] = true
+							break
+						}
+					}
+				}
 				// is there a way round the loop that passes no emit? Edges taken because a pointer of the
 				// element is nil are not counted: that element has nothing to contribute (and the test
 				// guards a dereference).
